@@ -1,6 +1,6 @@
 (* C17 — OCR2 (v2) report coordinator: lockout until the right log, convergent across orderings.
    Property theorems only; proofs live in Proofs/V2CoordProofs.v, the model in Model/V2Coord.v. *)
-From Verif Require Import Base.Util Model.V2Coord Proofs.V2CoordProofs.
+From Verif Require Import Base.Util Model.V2Coord Proofs.V2CoordProofs Model.V2CoordPlugin Proofs.V2CoordPluginProofs.
 Open Scope N_scope.
 
 (* shouldUpdate is the strict part of the total order [ble] on (check block, transmit block)
@@ -130,6 +130,53 @@ Theorem C17_model_passes_checker :
   forall c h qt q, check_queries c h qt q (model_ans c h qt q) = true.
 Proof. exact model_passes. Qed.
 Print Assumptions C17_model_passes_checker.
+
+(* Plug-in level (pkg/v2/ocr.go ShouldTransmitAcceptedReport over the coordinator), reports with
+   any number of keys: with nothing expired, a report that decodes to at least one key is worth
+   transmitting iff SOME key of it — at any position — was accepted and has seen no perform / stale
+   log with enough confirmations since its first accept; no error is returned. *)
+Theorem C17_transmit_iff :
+  forall c t0 W (h : list pop) now k ks,
+  no_expiry c t0 W (flatten h) now ->
+  let s := run c (flatten h) init in
+  snd (transmit_ans now s (RKeys (k :: ks))) = false /\
+  (fst (transmit_ans now s (RKeys (k :: ks))) = true <->
+   exists q, In (Some q) (k :: ks) /\ unconfirmed_hist (minc c) (map snd (flatten h)) q).
+Proof. exact transmit_iff. Qed.
+Print Assumptions C17_transmit_iff.
+
+(* ... hence independent of the order of the keys inside the report *)
+Theorem C17_transmit_order_independent :
+  forall now s ks ks', Permutation ks ks' -> ks <> [] ->
+  transmit_ans now s (RKeys ks) = transmit_ans now s (RKeys ks').
+Proof. exact transmit_perm. Qed.
+Print Assumptions C17_transmit_order_independent.
+
+(* ShouldAcceptFinalizedReport: accepted (without error) exactly for a decodable non-empty report
+   all of whose keys split, and then every key of the report is accepted by the coordinator. *)
+Theorem C17_accept_rule :
+  forall r, accept_ans r = (true, false) ->
+  forall q ks, r = RKeys ks -> In (Some q) ks -> In q (accepted_keys r).
+Proof. exact accept_rule. Qed.
+Print Assumptions C17_accept_rule.
+
+Theorem C17_accept_true_iff :
+  forall r, accept_ans r = (true, false) <-> exists k ks, r = RKeys (k :: ks) /\ forallb is_some (k :: ks) = true.
+Proof. exact accept_true_iff. Qed.
+Print Assumptions C17_accept_true_iff.
+
+(* the boolean plug-in level checker decides the plug-in level spec *)
+Theorem C17_plugin_checker_sound : forall k, C17_plugin_check k = true -> C17_plugin_spec k.
+Proof. exact C17_plugin_check_sound. Qed.
+Print Assumptions C17_plugin_checker_sound.
+
+(* a variant in which only the LAST key of the report decides (flag overwritten instead of
+   accumulated) violates the spec: accept (100,11),(100,22); perform log for (100,22) only *)
+Theorem C17_transmit_last_key_only_violates_spec :
+  exists c h qt r, (exists t0 W, no_expiry c t0 W (flatten h) qt) /\
+    ~ transmit_spec c (flatten h) qt r (transmit_last_only qt (run c (flatten h) init) r).
+Proof. exact transmit_last_only_refuted. Qed.
+Print Assumptions C17_transmit_last_key_only_violates_spec.
 
 (* What the code does to a superseded key: (10,id) accepted, never logged; (20,id) accepted and
    performed at block 25.  Blocks > 25 pass although (10,id) is still unconfirmed. *)
